@@ -186,7 +186,7 @@ class PosSim:
         if n is not None:
             return n
         k = ent.kind
-        if k in ('FOUND', 'AUXHEAD', 'RANDPOS'):
+        if k in ('FOUND', 'AUXHEAD', 'RANDPOS', 'AUXNODE'):
             others = [it for it in self.items if isinstance(it, Node) and it.was_bound and it.ent is not None]
             if others:
                 self.unknown.append('second bound entity %r: position relative to %r unknown' % (ent, others))
@@ -296,6 +296,7 @@ class PosSim:
         return self.list_epoch
 
     list_epoch = 0
+    pnet = 0                  # net number of nodes the partition moved over (None: not established)
     infeasible = False
     claimed = None
 
@@ -419,10 +420,35 @@ class PosSim:
         if self.mark is None:
             return
         if e.delta is None:
-            self.unknown.append('partition iterator assigned %s' % show(e.val))
-            return
-        step = e.delta - self._pdelta
-        self._pdelta = e.delta
+            v = e.val
+            if isinstance(v, tuple) and len(v) > 2 and v[0] == 'adv' and v[2] == self.pval and v[1] in (1, -1):
+                step = v[1]                  # one step from the value the partition was last given
+                if self.pnet is not None:
+                    self.pnet += step
+            else:
+                # `partition = position of a node` (e.g. of the entry just spliced in front of the free region): the partition now
+                # denotes that node; whether used / free nodes are still on their side is judged by integrity()
+                n = self.resolve_iter(v) if isinstance(v, tuple) else None
+                if isinstance(n, Node) and n in self.items:
+                    i_old = self.items.index(self.mark)
+                    self.items.remove(self.mark)
+                    self.items.insert(self.items.index(n), self.mark)
+                    i_new = self.items.index(self.mark)
+                    crossed = self.items[i_new + 1:i_old + 1] if i_new < i_old else self.items[i_old:i_new]
+                    if self.pnet is not None and all(isinstance(x, Node) for x in crossed):
+                        self.pnet += (-len(crossed) if i_new < i_old else len(crossed))
+                    else:
+                        self.pnet = None
+                    self.pval = v
+                    return
+                self.pnet = None
+                self.unknown.append('partition iterator assigned %s' % show(e.val))
+                return
+        else:
+            step = e.delta - self._pdelta
+            self._pdelta = e.delta
+            if self.pnet is not None:
+                self.pnet += step
         old = self.pval
         if e.val in self.memo and isinstance(self.memo[e.val], Node) and step in (1, -1):
             # the new partition value was computed (and resolved to a node) earlier on the path; if the list was re-linked in between,
